@@ -36,6 +36,7 @@ type Ghost interface {
 
 type State struct {
 	F     *world.Flat
+	Memo  map[string]interface{} // oracle scratch (not part of the key)
 	G     Ghost
 	Viol  map[string]string // violated state clauses (signature -> detail), for first-broken-by-step reporting
 	Depth int
@@ -254,6 +255,9 @@ func Apply(w *world.World, f *world.Flat, ctx sdk.Context, write func(), op *Op,
 				}
 			}()
 			h := f.H
+			em := sdk.NewEventManager()
+			ctx = ctx.WithEventManager(em)
+			defer func() { res.Events = em.Events(); res.Flows = world.FlowsOf(res.Events) }()
 			if op.EndTo < h {
 				panic(fmt.Sprintf("HARNESS: EndTo %d < height %d", op.EndTo, h))
 			}
@@ -292,7 +296,8 @@ func Apply(w *world.World, f *world.Flat, ctx sdk.Context, write func(), op *Op,
 		}
 		write()
 		f.H = op.EndTo + 1
-		return world.Result{OK: true}, ""
+		res.OK = true
+		return res, ""
 	}
 	panic("HARNESS: empty op " + op.Label)
 }
